@@ -298,7 +298,9 @@ def run_case(S, case, ctx):
                 chain.append(res[j])
                 j += 1
             per = 2 * math.pi * err
-            fine = abs(seg.sweep) / max(1, len(chain)) <= 2 * math.pi / 12.0 * 1.0001
+            # at the default error setting (0.1) or a finer one the bound is the library's responsibility,
+            # whatever subdivision it chooses
+            fine = err <= 0.1 or abs(seg.sweep) / max(1, len(chain)) <= 2 * math.pi / 12.0 * 1.0001
             rel = measure_chain(S, ctx, seg, chain, "%s, arc at %d" % (what, i), D_CUBIC if to == "cubic" else D_QUAD, to, check_error=fine)
             if rel is None:
                 return
